@@ -1525,17 +1525,27 @@ type loopSpec struct {
 	decr []*Clause
 }
 
+// frameContract: the contract whose loop clauses apply in the current frame (the function under
+// verification, or the inlined callee's own contract).
+func (v *FnV) frameContract() *FuncContract {
+	if len(v.frames) == 1 {
+		return v.fc
+	}
+	return v.e.cs.Funcs[v.fr().name]
+}
+
 func (v *FnV) loopClauses(ord int) loopSpec {
 	var ls loopSpec
-	if len(v.frames) > 1 {
-		return ls // inlined callee loops use the callee's contract, handled by caller of inline
+	fc := v.frameContract()
+	if fc == nil {
+		return ls
 	}
-	for _, cl := range v.fc.Invs {
+	for _, cl := range fc.Invs {
 		if cl.Loop == 0 || cl.Loop == ord {
 			ls.invs = append(ls.invs, cl)
 		}
 	}
-	for _, cl := range v.fc.Decr {
+	for _, cl := range fc.Decr {
 		if cl.Loop == ord {
 			ls.decr = append(ls.decr, cl)
 		}
@@ -1555,6 +1565,12 @@ func (v *FnV) loopCore(st *State, node ast.Stmt, label string, modified []ast.No
 
 	var out Flow
 	ord := v.fr().ord[node]
+	if fc := v.frameContract(); fc != nil && v.loopHid == nil {
+		if n, ok := fc.Unroll[ord]; ok {
+			v.autoInv = nil
+			return v.unrollLoop(st, node, label, ord, n, guard, body, post)
+		}
+	}
 	ls := v.loopClauses(ord)
 	hid, bind := v.loopHid, v.loopBind
 	v.loopHid, v.loopBind = nil, nil
@@ -2097,4 +2113,58 @@ func (v *FnV) countingLoopInvariant(x *ast.ForStmt) []*Clause {
 		return nil
 	}
 	return []*Clause{{Kind: "invariant", Label: "auto-counter", Expr: e, Text: text + " (synthesised for the counting loop)", Loop: -1}}
+}
+
+// unrollLoop executes a loop whose trip count is bounded by n completely: n
+// iterations are executed symbolically and "the guard is false after n
+// iterations" is an obligation, so this is exact, not a bound.
+func (v *FnV) unrollLoop(st *State, node ast.Stmt, label string, ord, n int,
+	guard func(*State) string, body func(*State) Flow, post func(*State) *State) Flow {
+	var out Flow
+	base := len(st.items)
+	var exits []*State
+	cur := st
+	for k := 0; k <= n; k++ {
+		if cur == nil || cur.dead {
+			break
+		}
+		g := "true"
+		if guard != nil {
+			g = guard(cur)
+		}
+		gn := cur.define("ug", "Bool", g)
+		if k == n {
+			s2 := cur.fork()
+			v.oblige(s2, "unroll-complete@loop", node, ord, sNot(gn), fmt.Sprintf("the loop has terminated after %d iterations", n))
+			ex := cur.fork()
+			ex.assume(sNot(gn))
+			exits = append(exits, ex)
+			break
+		}
+		ex := cur.fork()
+		ex.assume(sNot(gn))
+		exits = append(exits, ex)
+		cur.assume(gn)
+		f := body(cur)
+		var conts []*State
+		if f.normal != nil {
+			conts = append(conts, f.normal)
+		}
+		for _, e := range f.exits {
+			switch {
+			case e.kind == exBreak && matchLabel(e, label):
+				exits = append(exits, e.st)
+			case e.kind == exContinue && matchLabel(e, label):
+				conts = append(conts, e.st)
+			default:
+				out.exits = append(out.exits, e)
+			}
+		}
+		cur = v.merge(base, conts...)
+		if cur != nil && post != nil {
+			cur = post(cur)
+		}
+	}
+	out.normal = v.merge(base, exits...)
+	return out
 }
